@@ -100,6 +100,8 @@ func init() {
 			st.Bounds = fmt.Sprintf("%d header sets x 8 variant subsets x %d sizes x cycling (status,name,minlen,filter,timestamps) combinations", len(headers), len(sizes))
 			var idx int64
 			combo := 0
+			var prevData []byte
+			var prevHash uint64
 			for hi, h := range headers {
 				for subset := 0; subset < 8; subset++ {
 					for _, sz := range sizes {
@@ -133,6 +135,11 @@ func init() {
 								c.Violation("roundtrip", "encode-error", err.Error(), nil, kase, nil)
 								continue
 							}
+							// a record handed out earlier must not change when another entry is encoded
+							if prevData != nil && env.H64(prevData) != prevHash {
+								c.Violation("roundtrip", "earlier-record-overwritten", "the bytes returned for the previous entry changed when this entry was encoded", nil, kase, nil)
+							}
+							prevData, prevHash = data, env.H64(data)
 							got, err := cache.VerifDecode(data)
 							if err != nil {
 								c.Violation("roundtrip", "decode-error-on-own-record", err.Error(), nil, kase, nil)
